@@ -76,6 +76,7 @@ class Trace:
         session = {}           # client -> dict(ut, last={entity: tick}, extras_at_start)
         tick_now = 0
         auth_tick_pending = set()
+        hash_state = {}
         tickrecv = {}
         emitted = {}           # seq -> dict(ty, mode, step, connected, ent)
         stamps = {}            # (client, seq) -> stamp of the message sent to that client
@@ -115,6 +116,35 @@ class Trace:
             if t[0] == "cop" and t[2] == "ev":
                 pending_cops.setdefault(int(t[1]), []).append(t[3:])
             if cfg.get("auth") == "proto":
+                # liveness of the handshake: a connected client sends its hash in its first frame; once the server has the
+                # hash of a client it decides in its next frame
+                if t[0] == "connect" and int(t[1]) not in connected:
+                    hash_state[int(t[1])] = "connected"
+                if t[0] == "disconnect" or t[0] == "stop":
+                    for c_ in ([int(t[1])] if t[0] == "disconnect" else list(hash_state)):
+                        hash_state.pop(c_, None)
+                if t[0] == "cframe" and hash_state.get(int(t[1])) == "connected":
+                    if "cevt %s PHASH" % t[1] in block:
+                        hash_state[int(t[1])] = "sent"
+                    else:
+                        self.add("C07", i, "client %s did not send its protocol hash in its first frame after connecting" % t[1])
+                        self.add("C14", i, "client %s did not send its protocol hash in its first frame after connecting" % t[1])
+                        hash_state[int(t[1])] = "failed"
+                if t[0] == "deliver" and t[2] == "c2s" and t[3] == "1" and hash_state.get(int(t[1])) == "sent":
+                    hash_state[int(t[1])] = "delivered"
+                if t[0] == "drop" and t[2] == "c2s" and t[3] == "1" and hash_state.get(int(t[1])) == "sent":
+                    hash_state[int(t[1])] = "lost"
+                if t[0] == "sframe":
+                    for c_, st_ in list(hash_state.items()):
+                        if st_ == "delivered":
+                            hash_state[c_] = "decided"
+                            if str(c_) == cfg.get("mismatch"):
+                                if "evt %d PMISMATCH" % c_ not in block or "disconnect-request %d" % c_ not in block:
+                                    self.add("C07", i, "client %d has a different protocol: the server must notify it and request a disconnect in the frame it reads the hash" % c_)
+                                    self.add("C14", i, "client %d has a different protocol: the server must notify it and request a disconnect in the frame it reads the hash" % c_)
+                            elif "authorized %d" % c_ not in block:
+                                self.add("C07", i, "client %d has the same protocol hash and the server read it, but did not authorize the client" % c_)
+                                self.add("C14", i, "client %d has the same protocol hash and the server read it, but did not authorize the client" % c_)
                 for l in block:
                     f = l.split()
                     if f[0] == "authorized":
